@@ -524,7 +524,7 @@ Qed.
    use it (no join, or a join conditional on a member the thread itself writes) is a recorded finding *)
 Theorem teardown_checked : forall T S wv, discipline_ok S T wv = true ->
   forall m d f ln, In m S -> m_dtor m = Some d -> In (f, ln) (d_destroys d) ->
-    mem f (unjoined_uses (thread_roots T S (m_class m)) (d_join d)) = true ->
+    mem f (unjoined_uses (thread_roots T S (m_class m)) (d_paths d)) = true ->
     exists w, In w wv /\ v_class w = m_class m /\ v_site w = m_name m /\ v_what w = f /\ v_kind w = "destroy"%string.
 Proof.
   intros T S wv Hok m d f ln Hm Hd Hf Hbad.
@@ -603,7 +603,7 @@ Theorem useafter_checked : forall T S wv, discipline_ok S T wv = true ->
 Proof.
   intros T S wv Hok m g f Hm Hc Hg Hf.
   assert (Hv : In (mkViol (m_class m) (m_name m) f "useafter") (violations_raw T S)).
-  { unfold violations_raw. do 5 (apply in_or_app; right). apply in_or_app; left.
+  { unfold violations_raw. do 6 (apply in_or_app; right). apply in_or_app; left.
     unfold useafter_violations. apply in_flat_map. exists (m, CAny); split.
     - unfold roots. apply in_flat_map. exists m; split; [exact Hm|]. rewrite Hc. left; reflexivity.
     - apply in_flat_map. exists (m_class m, g); split; [exact Hg|].
@@ -661,12 +661,54 @@ Theorem borrow_checked : forall T S wv, discipline_ok S T wv = true ->
 Proof.
   intros T S wv Hok m k pa kind Hm Hc Hpa Hk.
   assert (Hv : In (mkViol (m_class m) (m_name m) (pa_callee pa) kind) (violations_raw T S)).
-  { unfold violations_raw. do 4 (apply in_or_app; right). apply in_or_app; left.
+  { unfold violations_raw. do 5 (apply in_or_app; right). apply in_or_app; left.
     unfold borrow_violations. apply in_flat_map. exists (m, k); split.
     - unfold roots. apply in_flat_map. exists m; split; [exact Hm|]. rewrite Hc. left; reflexivity.
     - unfold FUEL. cbn [collect_posts]. apply in_or_app; left.
       apply in_flat_map. exists pa; split; [exact Hpa|]. rewrite Hk.
       unfold site_name, seqb. rewrite String.eqb_refl. left; reflexivity. }
+  destruct (discipline_ok_spec _ _ _ Hok _ Hv) as [w [Hw Heq]].
+  apply viol_eqb_eq in Heq. cbn in Heq. destruct Heq as [E1 [E2 [E3 E4]]].
+  exists w; repeat split; auto.
+Qed.
+
+(* ------------------------------------------------------------------ destructor paths *)
+(* path-sensitivity of the teardown rule: a destructor all of whose paths execute join() exposes nothing, whatever the
+   conditions read; and a path that skips join() on a member the thread writes exposes exactly that thread's tail *)
+Lemma all_paths_joined_safe : forall thr paths,
+  forallb (fun p => fst p) paths = true -> unjoined_uses thr paths = [].
+Proof.
+  intros thr paths H. unfold unjoined_uses. induction paths as [|p r IH]; [reflexivity|].
+  cbn in H. apply andb_true_iff in H. destruct H as [Hp Hr].
+  cbn [flat_map]. unfold path_unjoined_uses at 1. rewrite Hp. cbn. exact (IH Hr).
+Qed.
+
+Lemma skipped_path_exposes_tail : forall thr paths gs g t x,
+  In (false, gs) paths -> gs <> [] -> In g gs -> thread_writes thr g = true -> In t thr -> In x (tail_after t g) ->
+  mem x (unjoined_uses thr paths) = true.
+Proof.
+  intros thr paths gs g t x Hp Hne Hg Hw Ht Hx.
+  assert (Hin : In x (unjoined_uses thr paths)).
+  { unfold unjoined_uses. apply in_flat_map. exists (false, gs); split; [exact Hp|].
+    unfold path_unjoined_uses. cbn [fst snd]. destruct gs as [|g0 r]; [congruence|].
+    apply in_flat_map. exists g; split; [exact Hg|]. rewrite Hw.
+    apply in_flat_map. exists t; split; [exact Ht|exact Hx]. }
+  unfold mem. apply existsb_exists. exists x; split; [exact Hin|]. unfold seqb. apply String.eqb_refl.
+Qed.
+
+(* the static rule for registered callbacks *)
+Theorem callback_checked : forall T S wv, discipline_ok S T wv = true ->
+  forall m ra, In m S -> In ra (m_regargs m) -> mem (ra_target ra) (t_shared T) = true ->
+    lookup3 (m_class m) (m_name m) (ra_callee ra) (t_lifetime_ok T) = false ->
+    (seqb (ra_kind ra) "this" || seqb (ra_kind ra) "member") = true ->
+    exists w, In w wv /\ v_class w = m_class m /\ v_site w = m_name m /\ v_what w = ra_callee ra /\
+              v_kind w = "rawthis-callback"%string.
+Proof.
+  intros T S wv Hok m ra Hm Hra Hsh Hok2 Hk.
+  assert (Hv : In (mkViol (m_class m) (m_name m) (ra_callee ra) "rawthis-callback") (violations_raw T S)).
+  { unfold violations_raw. do 4 (apply in_or_app; right). apply in_or_app; left.
+    unfold callback_violations. apply in_flat_map. exists m; split; [exact Hm|].
+    apply in_flat_map. exists ra; split; [exact Hra|]. rewrite Hsh, Hok2, Hk. left; reflexivity. }
   destruct (discipline_ok_spec _ _ _ Hok _ Hv) as [w [Hw Heq]].
   apply viol_eqb_eq in Heq. cbn in Heq. destruct Heq as [E1 [E2 [E3 E4]]].
   exists w; repeat split; auto.
